@@ -65,6 +65,9 @@ def id_of(d):
     return d.split('|')[0] if isinstance(d, str) else None
 
 
+MAXSTEPS = [0]
+
+
 def run_conv(rec, case):
     rng = gen.mkrng('c10', case['seed'], case['i'])
     pair = case['pair']
@@ -75,10 +78,19 @@ def run_conv(rec, case):
         'AA', 'AH', 'RH', 'AN', 'RN') and
                                             rng.random() < 0.5) else 0
     rec.evaluations += 1
+    # the server's answer to the upgrade probe gets lost: the threaded
+    # client gives the attempt up after its request time-out and the
+    # conversation goes on over polling, as if no upgrade had been tried
+    lost_probe = pair in ('TT', 'TA') and transport == 'upgrade' and \
+        pi >= 1 and pt >= 1 and case['i'] % 3 == 0
     w = cli.PAIRS[pair]({'ping_interval': pi, 'ping_timeout': pt,
                          'async_handlers': async_handlers},
                         policy='random' if sched_seed else 'fifo',
-                        seed=sched_seed, request_timeout=5)
+                        seed=sched_seed,
+                        request_timeout=1.0 if lost_probe else 5)
+    if lost_probe:
+        w.peer.drop_probe_answers = 1
+        rec.count('upgrade_probe_answers_lost')
     steps = []
     # network latency: every request, response and client frame takes a
     # seeded share of at most ping_timeout/32: a PONG queued behind the
@@ -112,6 +124,13 @@ def run_conv(rec, case):
 
     def V(key, msg):
         rec.viol(key, msg + ' | ' + desc + ' steps=%r' % (steps[-16:],), case)
+    # a legitimate conversation takes < 250 000 scheduling steps (the evidence
+    # records the maximum seen); far more than that in bounded virtual time
+    # is a livelock (e.g. polls answered at once, again and again)
+    if getattr(w, 'sched', None) is not None:
+        w.sched.max_steps = 1500000
+    if getattr(w, 'loop', None) is not None:
+        w.loop.max_iterations = 1500000
     try:
         c, sim = w.cli, w.sim
         tr = {'polling': ['polling'], 'websocket': ['websocket'],
@@ -129,7 +148,8 @@ def run_conv(rec, case):
             # frames / requests still in flight (e.g. the UPGRADE frame)
             w.advance(4 * lat_max)
             w.quiesce()
-        want_tr = 'polling' if transport == 'polling' else 'websocket'
+        want_tr = 'polling' if (transport == 'polling' or lost_probe) \
+            else 'websocket'
         if c.c.transport() != want_tr or sim.transport_of(sid) != want_tr:
             V('transport-disagreement', 'client says %r, server says %r, '
               'expected %r' % (c.c.transport(), sim.transport_of(sid),
@@ -288,7 +308,18 @@ def run_conv(rec, case):
         if rec.evaluations % 61 == 1:
             rec.sample({'conversation': desc, 'steps': steps,
                         'up': len(up), 'down': len(down), 'ender': ender})
+    except Exception as e:
+        if 'budget exhausted' not in str(e):
+            raise
+        V('runaway-activity', 'scheduling budget exhausted at virtual '
+          't=%.3f: the two parties generate unbounded activity in bounded '
+          'time (%s)' % (w.now, e))
     finally:
+        sch = getattr(w, 'sched', None)
+        n = sch.steps if sch is not None else w.loop.iterations
+        if n > MAXSTEPS[0]:
+            MAXSTEPS[0] = n
+            rec.extra['max_scheduling_steps'] = n
         w.teardown()
 
 
